@@ -78,20 +78,29 @@ def validate_dm(repo, gen_c, outdir, incs):
         o = os.path.join(outdir, os.path.basename(s) + ".o")
         sh(["gcc", "-std=gnu11", "-O0", "-w", "-c", "-o", o] + incs + [s]); objs.append(o)
     o_real = os.path.join(outdir, "dm_real.o")
-    sh(["g++", "-std=gnu++20", "-O0", "-w", "-DNDEBUG", "-c", "-o", o_real] + incs + [os.path.join(repo, "acquire-core-libs/src/acquire-device-hal/device/hal/device.manager.cpp")])
-    sh(["g++", "-o", real] + objs + [o_real])
+    san = ["-fsanitize=address,undefined", "-fno-sanitize-recover=all"]
+    sh(["g++", "-std=gnu++20", "-O0", "-g", "-w", "-DNDEBUG"] + san + ["-c", "-o", o_real] + incs + [os.path.join(repo, "acquire-core-libs/src/acquire-device-hal/device/hal/device.manager.cpp")])
+    sh(["g++"] + san + ["-o", real] + objs + [o_real])
     o_model, o_shim = os.path.join(outdir, "dm_model.o"), os.path.join(outdir, "dm_shim.o")
     sh(["gcc", "-std=gnu11", "-O0", "-w", "-c", "-o", o_model, gen_c])
     sh(["gcc", "-std=gnu11", "-O0", "-w", "-c", "-o", o_shim, shim])
     sh(["gcc", "-o", model] + objs + [o_model, o_shim])
-    ra = subprocess.run([real], capture_output=True, text=True, timeout=60)
-    rb = subprocess.run([model], capture_output=True, text=True, timeout=60)
+    ra = subprocess.run([real, "1"], capture_output=True, text=True, timeout=60)
+    rb = subprocess.run([model, "1"], capture_output=True, text=True, timeout=60)
     if ra.returncode != 0 or rb.returncode != 0:
-        raise RuntimeError("differential validation (device manager): a side crashed: real rc=%d model rc=%d %s" % (ra.returncode, rb.returncode, (ra.stderr + rb.stderr)[-300:]))
+        raise RuntimeError("differential validation (device manager): a side crashed on the defined-behaviour scenarios: real rc=%d model rc=%d %s" % (ra.returncode, rb.returncode, (ra.stderr + rb.stderr)[-300:]))
     la, lb = ra.stdout.splitlines(), rb.stdout.splitlines()
     if la != lb:
         diff = [(x, y) for x, y in zip(la, lb) if x != y][:3]
         raise RuntimeError("differential validation (device manager): the C translation answers differently from the g++ build: %s (lines %d vs %d)" % (diff, len(la), len(lb)))
+    # phase 2: out-of-range index / driver id.  Compared only when the sanitized real build gets
+    # through them cleanly; if the unit itself misbehaves there, that is for the solver to report
+    ra2 = subprocess.run([real, "2"], capture_output=True, text=True, timeout=60)
+    if ra2.returncode == 0:
+        rb2 = subprocess.run([model, "2"], capture_output=True, text=True, timeout=60)
+        if rb2.returncode != 0 or ra2.stdout != rb2.stdout:
+            raise RuntimeError("differential validation (device manager): out-of-range scenarios differ between the g++ build (clean) and the C translation (rc=%d)" % rb2.returncode)
+        la = la + ra2.stdout.splitlines()
     for f in os.listdir(outdir):
         if f.endswith(".bin") or f.endswith(".o"):
             os.remove(os.path.join(outdir, f))
